@@ -20,11 +20,11 @@ PRIOR_PALETTE = [
     # (poly_trend, n_offsets, k_prior, rv_unit, P unit, means)
     {"poly_trend": 1, "n_offsets": 0, "k_prior": "default", "rv_unit": "km/s", "P_unit": "d", "v0_mean": 0.0, "width": 1.0},
     {"poly_trend": 2, "n_offsets": 0, "k_prior": "default", "rv_unit": "km/s", "P_unit": "d", "v0_mean": 0.0, "width": 0.8, "sigma_K0": 300.0},
-    {"poly_trend": 1, "n_offsets": 1, "k_prior": "default", "rv_unit": "km/s", "P_unit": "d", "v0_mean": 0.0, "width": 1.25},
+    {"poly_trend": 1, "n_offsets": 1, "k_prior": "default", "rv_unit": "km/s", "P_unit": "d", "v0_mean": 0.0, "width": 1.25, "P0_d": 100.0},
     {"poly_trend": 1, "n_offsets": 0, "k_prior": "normal", "rv_unit": "km/s", "P_unit": "d", "v0_mean": 3.5, "width": 0.6},
     {"poly_trend": 3, "n_offsets": 2, "k_prior": "default", "rv_unit": "m/s", "P_unit": "d", "v0_mean": 0.0, "width": 1.0},
     {"poly_trend": 2, "n_offsets": 0, "k_prior": "normal", "rv_unit": "m/s", "P_unit": "yr", "v0_mean": -120.0, "width": 1.5},
-    {"poly_trend": 1, "n_offsets": 0, "k_prior": "default", "rv_unit": "m/s", "P_unit": "yr", "v0_mean": 0.0, "width": 0.7, "sigma_K0": 300.0},
+    {"poly_trend": 1, "n_offsets": 0, "k_prior": "default", "rv_unit": "m/s", "P_unit": "yr", "v0_mean": 0.0, "width": 0.7, "sigma_K0": 300.0, "P0_d": 20.0},
     {"poly_trend": 2, "n_offsets": 1, "k_prior": "default", "rv_unit": "km/s", "P_unit": "d", "v0_mean": 0.0, "width": 1.1},
 ]
 
@@ -76,8 +76,9 @@ def get_prior(spec, fresh=False):
             sigma_K0=spec.get("sigma_K0", 30.0) * scale * vu,  # 300 => the max_K cap of the K prior engages for short periods
             sigma_v=sig,
             poly_trend=poly,
-            v0_offsets=offs,
+            v0_offsets=offs or None,
             pars=pars or None,
+            **({"P0": spec["P0_d"] * u.day} if spec.get("P0_d") else {}),  # reference period of the K-variance rule (default 1 yr)
         )
     if not fresh:
         _PRIOR_CACHE[key] = prior
